@@ -202,26 +202,29 @@ def main(argv=None):
 
     # 2. proof obligations
     module = spec["module"]
-    names, modpath = core.theorem_names(module)
+    modules = [module] + list(spec.get("extra_modules", []))
+    names = []
+    for mname in modules:
+        names += core.theorem_names(mname)[0]
     obligations = len(names)
     discharged = 0
     axioms_used = []
     n_sources = 0
-    checker_cmd = "cd lean && lake build %s asts-model && lake env lean <audit: #print axioms of every theorem of %s>" % (module, module)
-    rc, out, lake_s = core.lake_build([module, "asts-model"])
+    checker_cmd = "cd lean && lake build %s asts-model && lake env lean <audit: #print axioms of every theorem of %s>" % (" ".join(modules), ", ".join(modules))
+    rc, out, lake_s = core.lake_build(modules + ["asts-model"])
     obligation_problem = None
     if rc != 0:
         obligation_problem = "lake build %s failed:\n%s" % (module, out[-3000:])
     else:
-        problems, axioms_used, n_sources = core.audit(module, names, workdir)
+        problems, axioms_used, n_sources = core.audit(modules, names, workdir)
         if problems:
             obligation_problem = "audit: " + "; ".join(problems)
         else:
             discharged = obligations
     if tier == "thorough" and obligation_problem is None:
         with core.Lock("lake"):
-            rc2, o2, e2 = core.run(["lake", "env", "leanchecker", module], cwd=core.LEAN, timeout=3600)
-        checker_cmd += " && lake env leanchecker " + module
+            rc2, o2, e2 = core.run(["lake", "env", "leanchecker"] + modules, cwd=core.LEAN, timeout=3600)
+        checker_cmd += " && lake env leanchecker " + " ".join(modules)
         if rc2 != 0:
             obligation_problem = "leanchecker rejected %s: %s" % (module, (o2 + e2).decode(errors="replace")[-1000:])
             discharged = 0
